@@ -928,6 +928,11 @@ func (p *Properties) setByConfig(config dvid.Config) error {
 		if err != nil {
 			return err
 		}
+		for dim := uint8(0); dim < p.BlockSize.NumDims(); dim++ {
+			if p.BlockSize.Value(dim) <= 0 {
+				return fmt.Errorf("BlockSize %s must be positive in every dimension", p.BlockSize)
+			}
+		}
 	}
 	s, found, err = config.GetString("VoxelSize")
 	if err != nil {
